@@ -288,6 +288,9 @@ func (r *vRun) jsonChecks(sg *vSignal, m *vMsg, v reflect.Value, pb []byte) {
 	if info.nilinner > 0 {
 		r.hist["json_nil_bytes_in_oneof"]++
 	}
+	if info.negzero > 0 {
+		r.out.Oracle("json-roundtrip", term, fmt.Sprintf("known:negative-zero %s: -0.0 in a singular double field is not written by MarshalJSON (jsonpb omits proto3 zero values, -0.0 == 0) and comes back as +0.0 (%d field(s))", sg.name, info.negzero))
+	}
 	pb2, err2 := sg.marshalPB(x)
 	if len(diffs) > 0 {
 		r.reportDiffs("json-roundtrip", sg.name+" UnmarshalJSON(MarshalJSON(v))", term, diffs)
@@ -316,8 +319,8 @@ func (r *vRun) jsonChecks(sg *vSignal, m *vMsg, v reflect.Value, pb []byte) {
 		return
 	}
 	// correspondence with the JSON tree model: value -> tree (kind 4), tree -> value (kind 5)
-	r.out.Case(true, vCaseTermJ(4, m.id, t0.String(), r.s.jvTerm(m, doc)))
-	r.out.Case(true, vCaseTermJ(5, m.id, "VSome ("+t1.String()+")", r.s.jvTerm(m, doc)))
+	r.emit(true, vCaseTermJ(4, m.id, t0.String(), r.s.jvTerm(m, doc)))
+	r.emit(true, vCaseTermJ(5, m.id, "VSome ("+t1.String()+")", r.s.jvTerm(m, doc)))
 	r.hist["json_model_cases"] += 2
 	for _, fm := range vForms {
 		altDoc := r.rewriteJSON(m, doc, fm.form)
@@ -329,11 +332,11 @@ func (r *vRun) jsonChecks(sg *vSignal, m *vMsg, v reflect.Value, pb []byte) {
 		if !vGuard(r.out, sg.name+" UnmarshalJSON("+fm.name+")", term, func() { y, err = sg.unmarshalJSON(alt) }) {
 			continue
 		}
-		if fm.name == "all-alternate-forms" || fm.name == "ints-as-string" {
+		if fm.name == "all-alternate-forms" {
 			if err != nil {
-				r.out.Case(false, vCaseTermJ(5, m.id, "VNone", r.s.jvTerm(m, altDoc)))
+				r.emit(false, vCaseTermJ(5, m.id, "VNone", r.s.jvTerm(m, altDoc)))
 			} else {
-				r.out.Case(true, vCaseTermJ(5, m.id, "VSome ("+r.s.tree(m, reflect.ValueOf(y).Elem()).String()+")", r.s.jvTerm(m, altDoc)))
+				r.emit(true, vCaseTermJ(5, m.id, "VSome ("+r.s.tree(m, reflect.ValueOf(y).Elem()).String()+")", r.s.jvTerm(m, altDoc)))
 			}
 			r.hist["json_model_cases"]++
 		}
@@ -376,6 +379,10 @@ func (s *vSchema) normJSON(m *vMsg, t *vT, info *vNormInfo) {
 		c := t.kids[i]
 		switch f.card {
 		case vcOpt:
+			if f.ty == vtScalar && f.skind == "SDouble" && c.n == 1<<63 {
+				c.n = 0 // jsonpb omits a singular double that compares equal to 0: -0.0 comes back as +0.0
+				info.negzero++
+			}
 			if f.ty == vtMsg {
 				s.normJSON(f.msg, c, info)
 			}
@@ -412,18 +419,22 @@ func (r *vRun) jsonResponseChecks(sg *vSignal, m *vMsg, v reflect.Value, api vRe
 	}
 	rej, msg := sg.respGet(api)
 	try := func(doc []byte, what string) {
+		kind := "json-roundtrip"
+		if what != "as marshalled" {
+			kind = "json-forms"
+		}
 		a2 := sg.newResp(0, "")
 		var err error
 		if !vGuard(r.out, sg.name+" response UnmarshalJSON", term, func() { err = a2.UnmarshalJSON(doc) }) {
 			return
 		}
 		if err != nil {
-			r.out.Oracle("json-roundtrip", term, fmt.Sprintf("%s response (%s): UnmarshalJSON fails: %v", sg.name, what, err))
+			r.out.Oracle(kind, term, fmt.Sprintf("%s response (%s): UnmarshalJSON fails: %v", sg.name, what, err))
 			return
 		}
 		n2, m2 := sg.respGet(a2)
 		if n2 != rej || m2 != msg {
-			r.out.Oracle("json-roundtrip", term, fmt.Sprintf("%s response (%s): (%d,%q) comes back as (%d,%q)", sg.name, what, rej, msg, n2, m2))
+			r.out.Oracle(kind, term, fmt.Sprintf("%s response (%s): (%d,%q) comes back as (%d,%q)", sg.name, what, rej, msg, n2, m2))
 			return
 		}
 		pb2, err := a2.MarshalProto()
